@@ -298,6 +298,11 @@ def build_harness(race=False, instrument=False, timeout=900, pid=None):
         for old in olds[:-30]:   # never a recent one: another check may be running from it
             if time.time() - _mt(old) > 3 * 3600:
                 shutil.rmtree(old, ignore_errors=True)
+    # built in a private directory and renamed into place: checks of properties that share a harness binary (same key) may
+    # build it at the same time, in threads of bin/setup or in separate bin/check processes
+    final_d, final_exe = d, exe
+    d = "%s.tmp-%d-%d" % (final_d, os.getpid(), random.randrange(1 << 30))
+    exe = os.path.join(d, "verif.test")
     os.makedirs(d, exist_ok=True)
     replace = {}
     for f in repo_go_files():
@@ -328,6 +333,13 @@ def build_harness(race=False, instrument=False, timeout=900, pid=None):
     if rc != 0 or not os.path.exists(exe):
         shutil.rmtree(d, ignore_errors=True)
         return None, out
+    try:
+        os.rename(d, final_d)
+    except OSError:          # somebody else finished the same build first
+        shutil.rmtree(d, ignore_errors=True)
+    if not os.path.exists(final_exe):
+        return None, out + "\nharness binary vanished after the build"
+    exe = final_exe
     return exe, out
 
 def run_scenario(exe, scen, seed, n, params=None, timeout=900, extra_env=None):
